@@ -5,6 +5,7 @@
   records" is `Fs.ownerAt` of the backing-filesystem model.
 -/
 import Absnfs.ServerOwner
+import Absnfs.ServerOwner2
 import Gen.Facts
 open Absnfs Absnfs.Server
 
@@ -47,6 +48,20 @@ theorem symlink_owner (s s' : St) (c : Ctx) (args : Bytes) (body : Rfc.Body)
       Fs.ownerAt s'.fs (fsPath (joinName n.path name)) = some (ownerUid c sa, ownerGid c sa) ∧
       ∀ q, q ≠ fsPath (joinName n.path name) → Fs.ownerAt s'.fs q = Fs.ownerAt s.fs q :=
   procSymlink_owner s s' c args body h
+
+/-- CREATE that succeeds, in every state satisfying the server invariant (hence after every history): a file
+    that did not exist is recorded as owned by that identity and no other object changes owner; a CREATE over a
+    name that was taken changes no owner. -/
+theorem create_owner (s s' : St) (c : Ctx) (args : Bytes) (body : Rfc.Body) (h : CInv s)
+    (heq : procCreate s c args = (s', .res ⟨0, body⟩)) :
+    ∃ (hd how : Nat) (r1 r2 r3 name verf : Bytes) (sa : Sattr3) (n : Node),
+      decFh' s args = some (hd, r1) ∧ decStr s r1 = some (name, r2) ∧ decU32 r2 = some (how, r3) ∧
+      parseCreateHow how r3 = some (sa, verf) ∧ nodeOf s hd = some n ∧
+      ((∃ err, Fs.lstat s.fs (fsPath (joinName n.path name)) = .error err) →
+        Fs.ownerAt s'.fs (fsPath (joinName n.path name)) = some (ownerUid c sa, ownerGid c sa) ∧
+        ∀ q, q ≠ fsPath (joinName n.path name) → Fs.ownerAt s'.fs q = Fs.ownerAt s.fs q) ∧
+      ((∃ info, Fs.lstat s.fs (fsPath (joinName n.path name)) = .ok info) → ∀ q, Fs.ownerAt s'.fs q = Fs.ownerAt s.fs q) :=
+  procCreate_owner s s' c args body h heq
 
 /-- non-vacuity: uid 1000 asking for uid 0 gets 1000 -/
 example : ownerUid { now := 0, uid := 1000, gid := 1000, aux := [] } { uid := some 0, gid := some 0 } = 1000 := by decide
